@@ -100,6 +100,22 @@ func drawC09(t *rapid.T) caseC09 {
 			}
 			l.Steps = append(l.Steps, stepW2{Op: "write", Seg: &txt}, stepW2{Op: "close"})
 		}
+		if rapid.IntRange(0, 3).Draw(t, "rawwrap") == 0 {
+			// incompressible pieces, each flushed (so each is stored as an
+			// uncompressed chunk), until more than twice DictCap+BufSize has
+			// been written: some chunk's payload straddles the end of the
+			// encoder's ring buffer and reaches the sink in two writes
+			l.Cfg.DictCap = rapid.SampledFrom([]int{4096, 4096, 8192}).Draw(t, "wrapdict")
+			l.Cfg.BufSize = rapid.SampledFrom([]int{273, 4096}).Draw(t, "wrapbuf")
+			l.Cfg.Matcher = 0
+			l.Steps = nil
+			for tot := 0; tot < 2*(l.Cfg.DictCap+l.Cfg.BufSize)+3000; {
+				seg := gen.Seg{Kind: "random", Len: rapid.IntRange(900, 3100).Draw(t, "wraplen"), Seed: rapid.Uint64().Draw(t, "wrapseed")}
+				tot += seg.Len
+				l.Steps = append(l.Steps, stepW2{Op: "write", Seg: &seg}, stepW2{Op: "flush"})
+			}
+			l.Steps = append(l.Steps, stepW2{Op: "close"})
+		}
 		total := 0
 		for i := range l.Steps {
 			if s := l.Steps[i].Seg; s != nil {
